@@ -59,6 +59,7 @@ class World(object):
 
 class C16(Profile):
     prop = "C16"
+    n_sweep = N_SWEEP
     SIGNATURE_KEYS = ("invariant", "field", "via", "case", "branch", "fault")
 
     def signature(self, v):
